@@ -193,10 +193,99 @@ def fatigue_data():
     return obs, tot, res.distinct
 
 
+def _rh_replay(args):
+    blocks, ef, et = args
+    import numpy as np
+    import pandas as pd
+    from .tlaparse import parse_state
+    from pylife.stress.rainflow.recorders import LoopValueRecorder, FullRecorder
+    n = 0
+    dev = []
+    lookups = wrong = 0
+    nbf, nbt = len(ef) - 1, len(et) - 1
+
+    def bin_i(v, e):
+        if v < e[0] or v > e[-1]:
+            return 0
+        if v == e[-1]:
+            return len(e) - 1
+        return max(k + 1 for k in range(len(e) - 1) if e[k] <= v)
+    for b in blocks:
+        st = parse_state(b.strip())
+        cyc, calls = [tuple(c) for c in st['cyc']], list(st['calls'])
+        if not cyc:
+            continue
+        n += 1
+        want = np.zeros((nbf, nbt))
+        for f, t in cyc:
+            i, j = bin_i(f, ef), bin_i(t, et)
+            if i and j:
+                want[i - 1, j - 1] += 1
+        for cls in (LoopValueRecorder, FullRecorder):
+            rec = cls()
+            pos = 0
+            for c in calls:
+                part = cyc[pos:pos + c]
+                rec.record_values([float(x[0]) for x in part], [float(x[1]) for x in part])
+                if cls is FullRecorder:
+                    rec.record_index(list(range(2 * pos, 2 * (pos + c), 2)), list(range(2 * pos + 1, 2 * (pos + c) + 1, 2)))
+                pos += c
+            h = rec.histogram([np.array(ef, dtype=float), np.array(et, dtype=float)])
+            got = h.to_numpy().reshape(nbf, nbt)
+            ok = np.array_equal(got, want) and list(h.index.names) == ['from', 'to'] and len(h) == nbf * nbt \
+                and [float(x) for x in rec.values_from] == [float(c[0]) for c in cyc] and [float(x) for x in rec.values_to] == [float(c[1]) for c in cyc]
+            if not ok:
+                dev.append({'cycles': cyc, 'cycles_per_call': calls, 'recorder': cls.__name__, 'model': want.tolist(), 'code': got.tolist()})
+                break
+            if cls is LoopValueRecorder:
+                # looking a counted cycle up by its values through the interval labels
+                for f, t in set(cyc):
+                    i, j = bin_i(f, ef), bin_i(t, et)
+                    if not (i and j):
+                        continue
+                    lookups += 1
+                    try:
+                        fi = h.index.levels[0].get_loc(float(f))
+                        ti = h.index.levels[1].get_loc(float(t))
+                        if (fi + 1, ti + 1) != (i, j):
+                            wrong += 1
+                    except KeyError:
+                        wrong += 1
+    return n, dev[:2], lookups, wrong
+
+
+def recorder_histogram():
+    """RecorderHisto.tla: cycles recorded call by call, binned like numpy.histogram2d (I); the interval labels of the result (D)."""
+    from . import par
+    d = os.path.join(SPEC, 'recorder')
+    EDGES = {'A': [-2, 0, 2], 'B': [-2, -1, 1, 2], 'Narrow': [-1, 0, 1]}
+    obs, tot, states, devs, lookups, wrong = [], 0, 0, [], 0, 0
+    for a, b in (('A', 'B'), ('Narrow', 'B'), ('B', 'Narrow')):
+        res = tlc.run(os.path.join(d, 'MC_RecorderHisto.tla'), os.path.join(d, 'MC_RecorderHisto_%s%s.cfg' % (a, b)), dump=True, timeout=600)
+        if res.violated or res.error:
+            return ['MACHINERY RecorderHisto.tla: %s %s' % (res.violated, (res.error or '')[:200])], 0, 0
+        states += res.distinct
+        for n, dv, lk, wr in par.pmap(_rh_replay, [(blk, EDGES[a], EDGES[b]) for blk in par.split_dump(res.dump_path, 32)], chunksize=1):
+            tot += n
+            devs += dv
+            lookups += lk
+            wrong += wr
+        os.remove(res.dump_path)
+    if devs:
+        obs.append('OBSERVATION LoopValueRecorder.histogram: %d recorded histories are binned differently from RecorderHisto.tla (numpy.histogram2d rule). first: %s' % (len(devs), json.dumps(devs[0])))
+    r2 = tlc.run(os.path.join(d, 'MC_RecorderHisto.tla'), os.path.join(d, 'MC_RecorderHisto_labels.cfg'), timeout=600)
+    if r2.violated and wrong:
+        last = r2.trace[-1] if r2.trace else {}
+        obs.append('OBSERVATION LoopValueRecorder.histogram: the bins are counted left-closed (numpy) but labelled right-closed (pandas.IntervalIndex.from_breaks): %d of %d look-ups of a counted '
+                   'cycle by its from/to values through the interval index land in another bin than the one it was counted in (or in none) -- every value on a bin edge. TLC counterexample: cycles=%s'
+                   % (wrong, lookups, json.dumps(last.get('cyc'), default=str)))
+    return obs, tot, states
+
+
 def main():
     build.install()
     rc = 0
-    for name, fn in (('timesignal_generator', timesignal_generator), ('held_damage_calculator', held_damage_calculator), ('fatigue_data', fatigue_data)):
+    for name, fn in (('timesignal_generator', timesignal_generator), ('held_damage_calculator', held_damage_calculator), ('fatigue_data', fatigue_data), ('recorder_histogram', recorder_histogram)):
         obs, n, states = fn()
         for o in obs:
             print(o)
